@@ -20,7 +20,7 @@ CLAIMED = {
 
 CLAIMED.update({
     "C01": dict(
-        text="Proved in Coq over exact rationals: the uniform split computed by the model's average_port_pressure is a feasible fractional assignment with slack 0, and every feasible split is non-negative, supported on admissible ports, adds up to the micro-ops' cycles and satisfies Hall's condition for every port set; proved for ANY numeric instance (binary64 included), any kernel context and any number of passes: balancing changes only cells of ports the micro-op may use (support) and keeps lengths; totals ignore zero-throughput lines. The second CLI pass is refuted on the bit-exact model (witness replayed on the code = known finding). The granular Hall bound for ONE optimised pass is not proved; it is decided by the bit-exact correspondence (binary64 model = implementation on every pressure cell, synthetic port models + shipped kernels x models) plus the exact-fraction Hall/total/support oracle on the implementation's outputs.",
+        text="Proved in Coq over exact rationals: the uniform split computed by the model's average_port_pressure is a feasible fractional assignment with slack 0, and every feasible split is non-negative, supported on admissible ports, adds up to the micro-ops' cycles and satisfies Hall's condition for every port set; proved for ANY numeric instance (binary64 included), any kernel context and any number of passes: balancing changes only cells of ports the micro-op may use (support) and keeps lengths; totals ignore zero-throughput lines; on a second bounded family (3192 kernels of length <= 2 over all forms with one or two 1-cycle micro-ops on subsets of 3 ports, complete for its shape) the bit-exact binary64 model is exactly feasible under uniform scheduling and, after ONE pass, satisfies non-negativity / support / total / Hall for every port set within 0.005 per (micro-op, port) pair (finite sweep, exact comparisons; the family is replayed on the implementation). The second CLI pass is refuted on the bit-exact model (witness replayed on the code = known finding; 798 of the 3192 family kernels). The granular Hall bound for ONE optimised pass is not proved; it is decided by the bit-exact correspondence (binary64 model = implementation on every pressure cell, synthetic port models + shipped kernels x models) plus the exact-fraction Hall/total/support oracle on the implementation's outputs.",
         note="Trusted: Coq kernel, vm_compute, primitive floats/ints; Model/Num.v's CPython round()/sum() algorithms (validated against CPython each run); the hand model Model/Pressure.v is tied to the code only by differential correspondence; exact-arithmetic theorems transfer to doubles up to rounding. Partial: one-pass feasibility within 0.005 per (micro-op, port) pair is checked, not proved.",
         technique="Coq proofs (feasible-flow algebra over Q, frame induction over the balancer generic in NumOps) + bit-exact differential correspondence of a binary64 Gallina model",
         ref="DESIGN.md C01"),
